@@ -67,6 +67,32 @@ def check(ctx):
             ctx._record_violation(ob)
         else:
             ctx.add(_Ob(ctx.prop, name, 'native-eval', 'bounded', 'discharged', seconds=secs, bound=bound, detail='%s: exact value iff it fits, for every boundary text in the lexical form' % chk))
+    # formatting <-> parsing of numbers (std formatting is out of the verifiers' reach): boundary values + pseudo-random bit patterns
+    import struct
+    fvals = [0.0, -0.0, float('inf'), float('-inf'), float('nan'), 5e-324, 2.2250738585072014e-308, 1.7976931348623157e308, 1.0 / 3.0, 0.1, 1e21, 1e-7, 1e16, 123456789012345680.0,
+             9007199254740992.0, 9007199254740993.0, 18446744073709551615.0, -1.5, 1e300 * 10, 4.9406564584124654e-324]
+    fbits = [struct.unpack('<Q', struct.pack('<d', v))[0] for v in fvals] + [0x7ff0000000000001, 0xfff8000000000000, 0x8000000000000001, 0x000fffffffffffff, 0x7fefffffffffffff]
+    x = 0x9e3779b97f4a7c15
+    for _ in range(100000 if thorough else 20000):
+        x = (x * 6364136223846793005 + 1442695040888963407) & 0xffffffffffffffff
+        fbits.append(x)
+    ubits = sorted({0, 1, 9, 10, 99, 100, 255, 256, 65535, 65536, 2 ** 32 - 1, 2 ** 32, 2 ** 53, 2 ** 63 - 1, 2 ** 63, 2 ** 64 - 1} | {10 ** k for k in range(20)} | {10 ** k - 1 for k in range(1, 20)}) + fbits[-2000:]
+    for chk, vals, what in (('fmt_float', fbits, 'Float'), ('fmt_uint', ubits, 'UnsignedInteger')):
+        fp = ctx.scratch.path('c20_%s.txt' % chk)
+        with open(fp, 'w') as f:
+            f.write('\n'.join(struct.pack('<Q', v).hex() for v in vals) + '\n')
+        rc, out, err, secs = _run([b, 'batch', 'chardata', chk, fp], timeout=900)
+        lines = [_json.loads(z) for z in out.strip().splitlines() if z.startswith('{')]
+        name = 'native/format-parse-%s' % chk
+        bound = '%d %s values (boundaries, specials, pseudo-random bit patterns)' % (len(vals), what)
+        if not lines or 'tried' not in lines[-1]:
+            ctx.undecided.append('%s: no result' % name)
+        elif lines[-1]['failed']:
+            ob = ctx.add(_Ob(ctx.prop, name, 'native-eval', 'bounded', 'failed', seconds=secs, bound=bound, detail='%s on bits %s: %s' % (chk, lines[0]['input'], lines[0]['message'])))
+            ob.witness = dict(input_hex=lines[0]['input'], input_text='%s value with little-endian bytes %s' % (what, lines[0]['input']), observed=lines[0]['message'], via='format/parse batch on the real functions', replay=['one', 'chardata', chk, lines[0]['input']])
+            ctx._record_violation(ob)
+        else:
+            ctx.add(_Ob(ctx.prop, name, 'native-eval', 'bounded', 'discharged', seconds=secs, bound=bound, detail='Display / serialize_internal followed by parse with the same value type (and by parse_float / parse_integer) returns the value'))
     ctx.native_enum('parse-float-prefixed', dict(module='chardata', check='float_prefixed', alphabet=b'0127fxXbB.', maxlen=6), 'parse_float on prefixed forms')
     ctx.native_enum('parse-bool', dict(module='chardata', check='bool', alphabet=b'truefals01TF ', maxlen=5), 'parse_bool against the boolean lexical form')
     return ctx.finish(
